@@ -99,6 +99,10 @@ def ensure_facts(repo=None, verbose=True):
     key, nfiles = _hash_tree(repo)
     out = os.path.join(WORK, "facts", key)
     if os.path.exists(os.path.join(out, "DONE")):
+        try:
+            os.utime(out)  # LRU: keep the entries that are in use
+        except OSError:
+            pass
         return out
     lock = open(os.path.join(WORK, "lock"), "w")
     fcntl.flock(lock, fcntl.LOCK_EX)
